@@ -316,6 +316,8 @@ class Driver:
             a = self.opnd(st["a"])
             row = a[self.opnd(st["src"])]
             a[st["dst"]] = row
+            if "dst2" in st:
+                a[st["dst2"]] = row          # the same row object at a second position
             return None
         if op == "setitem":
             a = self.opnd(st["a"])
